@@ -49,13 +49,13 @@ PROPS = {
                        'mint/burn authority and allowance bounds proved per message; histories by holders, spenders and the hub, all instantiate shapes incl. repeated addresses',
     },
     'C03': {
-        'families': [gen('pricing', 30, 120), gen('mixed', 20, 120), gen('dust', 15, 120)],
+        'families': [gen('pricing', 30, 120), gen('mixed', 20, 120), gen('dust', 15, 120), gen('drain', 20, 120)],
         'slice': PRICING_KINDS + [r'tok\.burn', r'tok\.burnfrom', r'env\.slash'],
         'explanation': 'reported-rate formula and the pricing of every mint/redeem proved on the model; State vs TokenInfo x2 vs CurrentBatch recomputed on every implementation step, minted amounts recomputed from the pre-state rate',
     },
     'C04': {
         'corpus': ['D6a.ops'],
-        'families': [gen('pricing', 30, 120), gen('mixed', 20, 120), gen('dust', 20, 120), gen('release', 15, 120)],
+        'families': [gen('pricing', 30, 120), gen('mixed', 20, 120), gen('dust', 20, 120), gen('release', 15, 120), gen('drain', 20, 120)],
         'slice': PRICING_KINDS + [r'hub\.withdraw', r'hub\.ugi', r'tok\.transfer', r'tok\.burnfrom', r'reg\..*', r'reward\.claim'],
         'explanation': 'per-operation rate monotonicity proved under the true-ratio premise; reported rates compared before/after every non-slashing step on the implementation',
     },
@@ -66,7 +66,7 @@ PROPS = {
         'explanation': 'fee bounds and never-past-the-peg proved for bond, unbond, convert stSei->bSei; convert bSei->stSei proved under the exact cap (D2 is the code not respecting it)',
     },
     'C06': {
-        'families': [gen('pricing', 30, 120), gen('release', 20, 120), gen('dust', 15, 120)],
+        'families': [gen('pricing', 30, 120), gen('release', 20, 120), gen('dust', 15, 120), gen('drain', 20, 120)],
         'slice': [r'hub\.check', r'env\.slash', r'env\.slashu', r'hub\.withdraw'] + PRICING_KINDS,
         'explanation': 'exact recognition and two-sided pro-rata bounds proved (nlinarith over the order of floors in query_actual_state and calculate_new_withdraw_rate); every CheckSlashing on the implementation is compared with the exact shares',
     },
